@@ -55,7 +55,7 @@ def _resolver_error_cls():
 class watchdog:
     """Hard timeout around code of the repo that may block (Future.result() on a pending future)."""
 
-    def __init__(self, seconds=5.0):
+    def __init__(self, seconds=2.0):
         self.seconds = seconds
         self.armed = False
 
@@ -733,12 +733,14 @@ def serial_violation(case, obs, kinds=("call", "body")):
 # ---------------------------------------------------------------------------
 # shrinking
 
-def shrink(case, still_fails, budget=150):
-    """Greedy structural shrinking; `still_fails(case) -> bool`."""
+def shrink(case, still_fails, budget=150, seconds=6.0):
+    """Greedy structural shrinking; `still_fails(case) -> bool`. Bounded by attempts and wall-clock."""
+    import time
     spent = [0]
+    t_stop = time.time() + seconds
 
     def attempt(c):
-        if spent[0] >= budget:
+        if spent[0] >= budget or time.time() > t_stop:
             return False
         spent[0] += 1
         try:
@@ -804,7 +806,7 @@ def shrink(case, still_fails, budget=150):
 
     cur = case
     progress = True
-    while progress and spent[0] < budget:
+    while progress and spent[0] < budget and time.time() < t_stop:
         progress = False
         for cand in candidates(cur):
             if not well_typed(cand):
